@@ -17,6 +17,7 @@ Line-protocol driver for the C09 model (name → id assignment), see harness/int
   srace tagkey|field <metricId> <nameA> <nameB>  (two callers, A stopped before the store lock)
   lflush <nsBucket> <ns> <name>               (GenMetricID of existing names ‖ a whole metadata flush)
   bcrace <nsBucket> <ns> <x>                  (lookup of an unknown name stopped after getSnapshot ‖ flush persisting x; then GenMetricID(ns, x))
+  brelease <tagKeyId> <v> <otherTagKeyId>     (GenTagValueID stopped between the cache hit and bucket.GetValue ‖ flush purging the cache ‖ load of another bucket)
   scrace <metricId> <fb> <fc>                 (reader's GetSchema stopped before cache.Add ‖ writer fb ‖ flush; then writer fc)
   swindow field <metricId> <f>                (metadata flush; GenFieldID runs between the schema commit and MarkPersisted)
   bload <hex>                                 (the caller's reused block buffer now holds these bytes)
@@ -188,6 +189,14 @@ def step (nd : Node) (ws : List String) : Node × String :=
         (r.1, if r.2 then "err flush-failed" else "ok")
       else bad
     | _, _ => bad
+  | ["ievict", sh, m] =>
+    -- the LRU sequence cache of one shard drops metric m's entry (eviction / expiry)
+    match sh.toNat?, m.toNat? with
+    | some sh, some m =>
+      if sh < nd.nShards then
+        (nd.setShard sh ((nd.shards sh).evictSeq m), if ((nd.shards sh).seqCache m).isSome then "evicted" else "absent")
+      else bad
+    | _, _ => bad
   | ["mflushcrash", k] =>
     match k.toNat? with
     | some k => if k ≤ 5 then ((nd.metaFlushPrefix k).recover, "ok") else bad
@@ -244,6 +253,10 @@ def step (nd : Node) (ws : List String) : Node × String :=
   | ["bcrace", nb, ns, x] =>
     match nb.toNat?, ns.toNat?, x.toNat? with
     | some nb, some ns, some x => let r := nd.bucketCacheRace cfg nb ns x; (r.1, s!"L=notfound X={showOut r.2}")
+    | _, _, _ => bad
+  | ["brelease", tk, v, other] =>
+    match tk.toNat?, v.toNat?, other.toNat? with
+    | some tk, some v, some other => let r := nd.bucketReleaseRace cfg tk v other; (r.1, s!"R={showOut r.2}")
     | _, _, _ => bad
   | ["scrace", m, fb, fc] =>
     match m.toNat?, fb.toNat?, fc.toNat? with
